@@ -11,3 +11,48 @@ package streamflow
 //@   loop 1 modifies nothing
 //@   loop 1 invariant[copied] len(edges) == idx1 && forall(k, 0, idx1, edges[k] == box(fgn.edges[k]))
 //@   ensures[same-edges] len(result) == len(fgn.edges) && forall(k, 0, len(fgn.edges), result[k] == box(fgn.edges[k]))
+
+// ---- building the graph from the configured connections (C04: the graph the walker sees is the graph configured)
+//@ pure ProcessorRefI.GetName
+//@ pure ProcessorRefI.GetCondition
+//@ pure ProcessorRefI.GetReferenceName
+//@ pure ProcessorRefI.GetCreatedByFlow
+//@ pure StreamRefI.GetName
+//@ pure StreamRefI.GetAt
+//@ pure FlowRefI.GetName
+//@ pure FlowRefI.GetAt
+//@ pure FlowConnRepI.GetFrom
+//@ pure FlowConnRepI.GetTo
+//@ pure ConnectionRefI.GetProcessor
+//@ pure ConnectionRefI.GetStream
+//@ pure ConnectionRefI.GetFlow
+
+// sameConn(a, b): a and b describe the same configured connection: same condition and the same target (a processor with
+// the same key, or the same stream / flow end point)
+//@ ghost func sameExt(a ExternalEdge, b ExternalEdge) bool = (a.stream != nil && b.stream != nil && a.stream.GetName() == b.stream.GetName() && a.stream.GetAt() == b.stream.GetAt()) || (!(a.stream != nil && b.stream != nil) && a.flow != nil && b.flow != nil && a.flow.GetName() == b.flow.GetName() && a.flow.GetAt() == b.flow.GetAt())
+//@ ghost func sameConn(a *ConnectionEdge, b *ConnectionEdge) bool = a.condition == b.condition && (sameExt(a.ExternalEdge, b.ExternalEdge) || (a.node != nil && b.node != nil && a.node.processorKey == b.node.processorKey))
+
+//@ func (ExternalEdge).equal
+//@   prop C04
+//@   modifies nothing
+//@   ensures[same-end-point] result <==> sameExt(ee, other)
+
+// Two edges are duplicates only if they carry the same condition and lead to the same place.
+//@ func (*ConnectionEdge).equal
+//@   prop C04
+//@   requires ce != nil && other != nil
+//@   modifies nothing
+//@   ensures[dedupe-sound] result <==> sameConn(ce, other)
+
+// After addEdge the node has an edge for the connection, and keeps every edge it had.
+//@ func (*FlowGraphNode).addEdge
+//@   prop C04
+//@   requires fgn != nil && edge != nil && forall(k, 0, len(fgn.edges), fgn.edges[k] != nil)
+//@   requires[valid-edge] edge.node != nil || edge.stream != nil || edge.flow != nil
+//@   modifies fgn.edges
+//@   loop 1 modifies nothing
+//@   loop 1 invariant[none-equal-yet] forall(k, 0, idx1, !sameConn(fgn.edges[k], edge))
+//@   ensures[has-connection] exists(k, 0, len(fgn.edges), sameConn(fgn.edges[k], edge))
+//@   ensures[keeps-edges] len(fgn.edges) >= old(len(fgn.edges)) && len(fgn.edges) <= old(len(fgn.edges)) + 1 && forall(k, 0, old(len(fgn.edges)), fgn.edges[k] == old(fgn.edges)[k])
+//@   ensures[appended-is-edge] len(fgn.edges) == old(len(fgn.edges)) + 1 ==> fgn.edges[old(len(fgn.edges))] == edge
+//@   ensures[no-nil-edges] forall(k, 0, len(fgn.edges), fgn.edges[k] != nil)
